@@ -6,7 +6,7 @@
    tied to the C by the correspondence run of bin/vcheck C17. *)
 From Coq Require Import ZArith List Bool.
 From A1 Require Import Base.Bytes Leaf.IntegerConv Leaf.StrtoxProofs Leaf.Decimal
-  Leaf.Oid Leaf.OidProofs.
+  Leaf.Oid Leaf.OidProofs Leaf.CivilTime Leaf.CivilTimeProofs Leaf.GTime Leaf.GTimeProofs.
 Import ListNotations.
 Local Open Scope Z_scope.
 
@@ -89,3 +89,69 @@ Theorem C17_single_arc_wraps : forall xs l rest,
   get_single_arc (xs ++ l :: rest) = GOk (subid_value (xs ++ [l]) mod two32) (zlen xs + 1) rest.
 Proof. exact get_single_arc_wraps. Qed.
 Print Assumptions C17_single_arc_wraps.
+
+(* ---------------- calendar arithmetic (the modelled libc) ---------------- *)
+
+(* every day number, no bound: date of the day, back to the day *)
+Theorem C17_civil_inverse_days : forall n,
+  let '(y, m, d) := civil_from_days n in days_from_civil y m d = n.
+Proof. exact days_civil_days. Qed.
+Print Assumptions C17_civil_inverse_days.
+
+(* every valid proleptic Gregorian date, any year in Z *)
+Theorem C17_civil_inverse_dates : forall y m d, valid_date y m d = true ->
+  civil_from_days (days_from_civil y m d) = (y, m, d).
+Proof. exact civil_days_civil. Qed.
+Print Assumptions C17_civil_inverse_dates.
+
+Theorem C17_civil_valid : forall n,
+  let '(y, m, d) := civil_from_days n in valid_date y m d = true.
+Proof. exact civil_from_days_valid. Qed.
+Print Assumptions C17_civil_valid.
+
+(* timegm undoes gmtime, and localtime once the zone offset is taken out of
+   tm_sec (what asn_time2GT_frac does), for every t and every offset *)
+Theorem C17_timegm_gmtime : forall t, timegm_val (gmtime t) = t.
+Proof. exact timegm_gmtime. Qed.
+Print Assumptions C17_timegm_gmtime.
+
+Theorem C17_timegm_localtime : forall t gmtoff,
+  let lt := localtime t gmtoff in timegm_val (set_sec lt (tm_sec lt - gmtoff)) = t.
+Proof. exact timegm_localtime. Qed.
+Print Assumptions C17_timegm_localtime.
+
+(* ---------------- GeneralizedTime / UTCTime ---------------- *)
+
+(* every t in years 0000..9999 except t = -1, every zone offset: the forced-GMT
+   text is 14 digits and 'Z', and reading it back (under any zone) returns t *)
+Theorem C17_gt_roundtrip_partial : forall t gmtoff lg, t_min <= t < t_max -> t <> -1 ->
+  exists txt ds, time2GT (localtime t gmtoff) true = Some txt /\
+    txt = ds ++ [90] /\ digits_ok ds /\ length ds = 14%nat /\
+    GT2time txt lg = GtOk t 0 0 /\ GT2time_frac txt lg = GtOk t 0 0.
+Proof. exact gt_roundtrip_partial. Qed.
+Print Assumptions C17_gt_roundtrip_partial.
+
+(* the full statement (without t <> -1) is false of the code: 19691231235959Z
+   is read back as the error value *)
+Theorem C17_gt_roundtrip_refuted :
+  exists t gmtoff, t_min <= t < t_max /\
+    time2GT (localtime t gmtoff) true = Some (map Z.of_nat [49;57;54;57;49;50;51;49;50;51;53;57;53;57;90]%nat) /\
+    GT2time (map Z.of_nat [49;57;54;57;49;50;51;49;50;51;53;57;53;57;90]%nat) 0 = GtFail.
+Proof. exact gt_roundtrip_refuted. Qed.
+Print Assumptions C17_gt_roundtrip_refuted.
+
+(* UTCTime: the same inside the window 1960-01-01 .. 2059-12-31 the pivot implements *)
+Theorem C17_ut_roundtrip_partial : forall t gmtoff lg, ut_min <= t < ut_max -> t <> -1 ->
+  exists txt ds, time2UT (localtime t gmtoff) true = Some txt /\
+    txt = ds ++ [90] /\ digits_ok ds /\ length ds = 12%nat /\
+    UT2time txt lg = GtOk t 0 0.
+Proof. exact ut_roundtrip_partial. Qed.
+Print Assumptions C17_ut_roundtrip_partial.
+
+(* outside the window (here 2060-01-01) the text is read a century earlier *)
+Theorem C17_ut_roundtrip_refuted :
+  exists t, t_min <= t < t_max /\
+    time2UT (localtime t 0) true = Some (map Z.of_nat [54;48;48;49;48;49;48;48;48;48;48;48;90]%nat) /\
+    UT2time (map Z.of_nat [54;48;48;49;48;49;48;48;48;48;48;48;90]%nat) 0 = GtOk (t - 3155760000) 0 0.
+Proof. exact ut_roundtrip_refuted. Qed.
+Print Assumptions C17_ut_roundtrip_refuted.
